@@ -67,18 +67,22 @@ fn gen_impl_display_trait<T: ToTokens>(
     error_type_path: &ErrorTypePath,
     validators: &[FloatValidator<T>],
 ) -> TokenStream {
+    // The boundaries have to be rendered with the inner float type (f32 or f64). Without the annotation
+    // an untyped float expression (e.g. `1.0 / 3.0`) would be evaluated and printed as f64 even for f32.
+    let inner_type: syn::Type = syn::parse_str(core::any::type_name::<T>())
+        .expect("float inner type must be a valid type");
     let match_arms = validators.iter().map(|validator| match validator {
         FloatValidator::Greater(val) => quote! {
-             #error_type_path::GreaterViolated => write!(f, "{} is too small. The value must be greater than {:#?}.", stringify!(#type_name), #val)
+             #error_type_path::GreaterViolated => write!(f, "{} is too small. The value must be greater than {:#?}.", stringify!(#type_name), { let boundary: #inner_type = #val; boundary })
         },
         FloatValidator::GreaterOrEqual(val) => quote! {
-             #error_type_path::GreaterOrEqualViolated => write!(f, "{} is too small. The value must be greater or equal to {:#?}.", stringify!(#type_name), #val)
+             #error_type_path::GreaterOrEqualViolated => write!(f, "{} is too small. The value must be greater or equal to {:#?}.", stringify!(#type_name), { let boundary: #inner_type = #val; boundary })
         },
         FloatValidator::LessOrEqual(val) => quote! {
-             #error_type_path::LessOrEqualViolated=> write!(f, "{} is too big. The value must be less than {:#?}.", stringify!(#type_name), #val)
+             #error_type_path::LessOrEqualViolated=> write!(f, "{} is too big. The value must be less than {:#?}.", stringify!(#type_name), { let boundary: #inner_type = #val; boundary })
         },
         FloatValidator::Less(val) => quote! {
-             #error_type_path::LessViolated=> write!(f, "{} is too big. The value must be less than {:#?}.", stringify!(#type_name), #val)
+             #error_type_path::LessViolated=> write!(f, "{} is too big. The value must be less than {:#?}.", stringify!(#type_name), { let boundary: #inner_type = #val; boundary })
         },
         FloatValidator::Predicate(_) => quote! {
              #error_type_path::PredicateViolated => write!(f, "{} failed the predicate test.", stringify!(#type_name))
